@@ -73,6 +73,8 @@ ARG_FAULTS = {
     "unknown_structure": ["-s", "tree"],
     "unknown_input_format": ["-i", "xml"],
     "four_argument_model": None,
+    "four_argument_model_all_valid": None,
+    "five_argument_model_all_valid": None,
     "generator_raises_midway": ["-f", "custom", "--code-generator", "verif_gen.Boom"],
     "generator_init_raises": ["-f", "custom", "--code-generator", "verif_gen.BoomInit"],
     "generator_module_missing": ["-f", "custom", "--code-generator", "no_such_module.Gen"],
@@ -204,6 +206,10 @@ def execute(case):
             names, target = _prepare(d, "json", out)
             if kind == "four_argument_model":
                 argv = ["-m", "Root", "-", names[0], "extra"]
+            elif kind == "four_argument_model_all_valid":
+                argv = ["-m", "Root", "-", names[0], names[1]]       # e.g. an unquoted pattern expanded by the shell
+            elif kind == "five_argument_model_all_valid":
+                argv = ["-m", "Root", "-", names[0], names[1], names[0]]
             else:
                 argv = ["-m", "Root", names[0], "-m", "Root", names[1]] + [a for a in ARG_FAULTS[kind]
                                                                             if not (a == "-f" and False)]
